@@ -88,7 +88,7 @@ PROPS = {
         ],
     },
     "C12": {
-        "theorems": ["SV.Props.C12.single_chunk_refines_fifo_queue", "SV.Props.C12.fifo_refusal_iff", "SV.Props.C12.cache_protects_accepted_keys", "SV.Props.C12.cache_protected_forever", "SV.Props.C12.cache_all_immune_refused", "SV.Props.C12.cache_refusal_changes_nothing", "SV.Props.C12.cache_never_overwrites", "SV.Props.C12.source_capacity_test_is_the_models", "SV.Props.C12.source_chunk_config_is_the_models", "SV.Props.C12.add_keeps_immune", "SV.Props.C12.eviction_skips_immune", "SV.Props.C12.protected_forever", "SV.Props.C12.protected_when_added", "SV.Props.C12.protected_when_immunized", "SV.Props.C12.all_immune_refused", "SV.Props.C12.refusal_changes_nothing", "SV.Props.C12.never_overwrites", "SV.Props.C12.legacy_F10"],
+        "theorems": ["SV.Props.C12.single_chunk_refines_fifo_queue", "SV.Props.C12.fifo_refusal_iff", "SV.Props.C12.cache_protects_accepted_keys", "SV.Props.C12.cache_protected_forever", "SV.Props.C12.cache_all_immune_refused", "SV.Props.C12.cache_refusal_changes_nothing", "SV.Props.C12.cache_never_overwrites", "SV.Props.C12.source_capacity_test_is_the_models", "SV.Props.C12.source_chunk_config_is_the_models", "SV.Props.C12.add_keeps_immune", "SV.Props.C12.eviction_skips_immune", "SV.Props.C12.protected_forever", "SV.Props.C12.protected_when_added", "SV.Props.C12.protected_when_immunized", "SV.Props.C12.all_immune_refused", "SV.Props.C12.refusal_changes_nothing", "SV.Props.C12.never_overwrites", "SV.Props.C12.legacy_F10", "SV.Props.C12.immunized_element_survives_on_the_two_structure_chunk"],
         "modules": ["SV.Props.C12"],
         "runs": [{"component": "immunity", "thorough_seeds": 2}],
         "rule": "random HasOrAdd/Put/Remove/ImmunizeKeys/Clear histories over 4-12 keys through ImmunityCache and CrossTxCache, 1-16 chunks, capacities at their lower bounds, sizes 0..500; thorough adds all histories of length 5 over an 11-operation alphabet (single chunk); distinct = distinct (operation kind, canonical output incl. full dump) pairs Also: one ImmunizeKeys batch falling almost entirely into one chunk of a multi-chunk cache, then both chunks filled until they evict.",
@@ -96,7 +96,7 @@ PROPS = {
         "assumptions": ["Go maps and container/list are modelled (association lists, lists); chunk routing by fnv32 is modelled exactly; item sizes are >= 0"],
     },
     "C13": {
-        "theorems": ["SV.Props.C13.single_chunk_refines_fifo_queue", "SV.Props.C13.fifo_refusal_iff", "SV.Props.C13.fifo_eviction_in_batches", "SV.Props.C13.holds_for_every_accepted_configuration", "SV.Props.C13.cache_never_exceeds_max", "SV.Props.C13.cache_views_agree", "SV.Props.C13.cache_flags_truthful", "SV.Props.C13.cache_remove_withdraws_immunity", "SV.Props.C13.cache_immunize_gate_refuses_whole", "SV.Props.C13.source_capacity_test_is_the_models", "SV.Props.C13.source_chunk_config_is_the_models", "SV.Props.C13.chunk_invariant", "SV.Props.C13.flags_truthful", "SV.Props.C13.eviction_is_fifo", "SV.Props.C13.eviction_partition", "SV.Props.C13.remove_withdraws_immunity", "SV.Props.C13.immunize_gate"],
+        "theorems": ["SV.Props.C13.single_chunk_refines_fifo_queue", "SV.Props.C13.fifo_refusal_iff", "SV.Props.C13.fifo_eviction_in_batches", "SV.Props.C13.holds_for_every_accepted_configuration", "SV.Props.C13.cache_never_exceeds_max", "SV.Props.C13.cache_views_agree", "SV.Props.C13.cache_flags_truthful", "SV.Props.C13.cache_remove_withdraws_immunity", "SV.Props.C13.cache_immunize_gate_refuses_whole", "SV.Props.C13.source_capacity_test_is_the_models", "SV.Props.C13.source_chunk_config_is_the_models", "SV.Props.C13.chunk_invariant", "SV.Props.C13.flags_truthful", "SV.Props.C13.eviction_is_fifo", "SV.Props.C13.eviction_partition", "SV.Props.C13.remove_withdraws_immunity", "SV.Props.C13.immunize_gate", "SV.Props.C13.two_structure_chunk_refines_the_model", "SV.Props.C13.map_count_never_exceeds_max"],
         "modules": ["SV.Props.C13"],
         "runs": [{"component": "immunity", "thorough_seeds": 2}],
         "rule": "random HasOrAdd/Put/Remove/ImmunizeKeys/Clear histories over 4-12 keys through ImmunityCache and CrossTxCache, 1-16 chunks, capacities at their lower bounds, sizes 0..500; thorough adds all histories of length 5 over an 11-operation alphabet (single chunk); distinct = distinct (operation kind, canonical output incl. full dump) pairs Also: one ImmunizeKeys batch falling almost entirely into one chunk of a multi-chunk cache, then both chunks filled until they evict.",
